@@ -59,6 +59,8 @@ def main():
             return -1
         if cls == "c":
             return Sym(name)
+        if cls == "q":     # a rational coefficient: its text is NOT atomic (like Fraction: "3/2")
+            return Sym("%sn/%sd" % (name, name))
         if cls == "s":
             return Stream([0.5, 0.25])
         raise ValueError(cls)
